@@ -29,6 +29,8 @@ theorem run_orphanLoop (cs : List Nat) : ∀ (g : Nat) (σ : St), cs.length + 1 
     simp only [bind_eq, pure_eq]
     rw [run_bind, run_lookup g' c true σ (fun _ _ h0 => hc2 h0)]
     simp only [lkRes, hce, Bool.not_true, Bool.and_false, Bool.false_eq_true, if_false]
+    rw [run_bind, run_lookup g' c true σ (fun _ _ h0 => hc2 h0)]
+    simp only [lkRes, hce, Bool.not_true, Bool.and_false, Bool.false_eq_true, if_false]
     rw [run_bind, run_putKey]; simp only
     rw [run_bind, run_delKey]; simp only [St.delKey, St.putKey]
     rw [ih (g'+1) _ (by simp at hg ⊢; omega) (by
